@@ -7,6 +7,7 @@
 #include <nano/core/numeric.h>
 #include <nano/dataset.h>
 #include <nano/dataset/iterator.h>
+#include <nano/dataset/hash.h>
 #include <nano/dataset/stats.h>
 #include <nano/generator/elemwise_identity.h>
 #include <nano/linear/util.h>
@@ -22,6 +23,7 @@ struct feat_t
 {
     char    kind{'F'};
     int64_t size{1};
+    int64_t d2{1}, d3{1}; // structured features / targets: dims (size, d2, d3)
 
     int64_t cols() const
     {
@@ -30,7 +32,7 @@ struct feat_t
         case 'S': return size - 1;
         case 'M': return size;
         case 'F': return 1;
-        default: return size;
+        default: return size * d2 * d3;
         }
     }
 };
@@ -71,7 +73,7 @@ spec_t read_spec(toks_t& toks)
         sp.group_kinds.push_back(kind);
         for (const auto size : toks.ints())
         {
-            const auto f = feat_t{kind, size};
+            const auto f = feat_t{kind, size, 1, 1};
             if (f.cols() < 1)
             {
                 throw bad_op("feature size");
@@ -134,7 +136,7 @@ private:
         case 'S': return feature_t{name}.sclass(static_cast<size_t>(f.size));
         case 'M': return feature_t{name}.mclass(static_cast<size_t>(f.size));
         case 'F': return feature_t{name}.scalar(feature_type::float64);
-        default: return feature_t{name}.scalar(feature_type::float64, make_dims(f.size, 1, 1));
+        default: return feature_t{name}.scalar(feature_type::float64, make_dims(f.size, f.d2, f.d3));
         }
     }
 
@@ -506,6 +508,250 @@ std::string op_feature(toks_t& toks, std::string& aug)
     print_stats(out, stats);
     return out.str();
 }
+
+// structured (4-D) targets and features: one struct feature and a struct target, both with dims (d1, d2, d3) and the same
+// values; statistics through make_targets_stats / make_feature_stats, scale / upscale through the tensor4d overloads; the
+// scaled values are read back element by element with four indices
+std::string op_t4(toks_t& toks, std::string& aug)
+{
+    const auto batch = toks.i64();
+    const auto tmode = to_scaling(toks.i64());
+    const auto d1    = toks.i64();
+    const auto d2    = toks.i64();
+    const auto d3    = toks.i64();
+    const auto rows  = toks.i64();
+    const auto y     = toks.fs();
+    const auto sel   = toks.ints();
+    if (!toks.done() || batch < 1 || d1 < 1 || d2 < 1 || d3 < 1 || rows < 1 || d1 * d2 * d3 > 64 ||
+        static_cast<int64_t>(y.size()) != rows * d1 * d2 * d3)
+    {
+        throw bad_op("t4 arguments");
+    }
+
+    spec_t sp;
+    // dims (1, 1, 1) make a scalar feature (served by the scalar generator, 1-D path of make_feature_stats)
+    const auto scalar = d1 * d2 * d3 == 1;
+    sp.group_kinds = {scalar ? 'F' : 'T'};
+    sp.feats       = {scalar ? feat_t{'F', 1, 1, 1} : feat_t{'T', d1, d2, d3}};
+    sp.target      = feat_t{'T', d1, d2, d3};
+    sp.rows        = rows;
+    sp.cols        = d1 * d2 * d3;
+    sp.tcols       = sp.cols;
+    sp.X           = y;
+    sp.Y           = y;
+    sp.samples     = sel;
+    for (const auto s : sp.samples)
+    {
+        if (s < 0 || s >= sp.rows)
+        {
+            throw bad_op("sample index");
+        }
+    }
+
+    out_t extra;
+    extra << epsilon2<scalar_t>() << std::numeric_limits<scalar_t>::max() << std::numeric_limits<scalar_t>::lowest();
+    aug += " " + extra.str();
+
+    const auto  world   = world_t{sp, 1U};
+    const auto& dataset = *world.m_dataset;
+    const auto  samples = to_indices(sp.samples);
+
+    const auto tstats = scalar_stats_t::make_targets_stats(dataset, samples, batch);
+    const auto fstats = scalar_stats_t::make_feature_stats(dataset, samples, 0, batch);
+
+    const auto tdims = dataset.target_dims();
+
+    tensor4d_t SY = world.m_Y;
+    tstats.scale(tmode, SY.tensor());
+    tensor4d_t UY = SY;
+    tstats.upscale(tmode, UY.tensor());
+
+    // the structured feature selected as a 4-D tensor and scaled with its own statistics (same values: same answer expected)
+    tensor4d_t fbuffer;
+    const auto all = arange(0, sp.rows);
+    tensor4d_t SF(sp.rows, d1, d2, d3);
+    if (scalar)
+    {
+        tensor1d_t sbuffer;
+        const auto values = dataset.select(all, 0, sbuffer);
+        for (tensor_size_t i = 0; i < sp.rows; ++i)
+        {
+            SF(i) = values(i);
+        }
+    }
+    else
+    {
+        SF = dataset.select(all, 0, fbuffer);
+    }
+    fstats.scale(tmode, SF.tensor());
+
+    out_t out;
+    out << "ok" << static_cast<int64_t>(std::get<0>(tdims)) << static_cast<int64_t>(std::get<1>(tdims))
+        << static_cast<int64_t>(std::get<2>(tdims));
+    print_stats(out, tstats);
+    print_stats(out, fstats);
+    std::vector<double> sy, uy, sf;
+    for (tensor_size_t s = 0; s < SY.size<0>(); ++s)
+    {
+        for (tensor_size_t i = 0; i < SY.size<1>(); ++i)
+        {
+            for (tensor_size_t j = 0; j < SY.size<2>(); ++j)
+            {
+                for (tensor_size_t k = 0; k < SY.size<3>(); ++k)
+                {
+                    sy.push_back(SY(s, i, j, k));
+                    uy.push_back(UY(s, i, j, k));
+                    sf.push_back(SF(s, i, j, k));
+                }
+            }
+        }
+    }
+    out.flist(sy).flist(uy).flist(sf);
+    return out.str();
+}
+
+// class statistics (xclass_stats_t) of a single-label / multi-label feature, optionally also used as the target
+//   scaling xclass <kind S|M> <classes> <astarget 0|1> <rows> <labels> <samples>
+//   <labels>: S: one label per row (-1 = missing); M: rows*classes indicators 0/1, a row starting with -1 is missing
+std::string op_xclass(toks_t& toks, std::string& aug)
+{
+    const auto kind     = to_kind(toks.s());
+    const auto classes  = toks.i64();
+    const auto astarget = toks.i64();
+    const auto rows     = toks.i64();
+    const auto labels   = toks.ints();
+    const auto sel      = toks.ints();
+    const auto per      = (kind == 'S') ? int64_t{1} : classes;
+    if (!toks.done() || (kind != 'S' && kind != 'M') || classes < (kind == 'S' ? 2 : 1) || classes > 8 || rows < 1 ||
+        (astarget != 0 && astarget != 1) || static_cast<int64_t>(labels.size()) != rows * per)
+    {
+        throw bad_op("xclass arguments");
+    }
+
+    spec_t sp;
+    const auto f   = feat_t{kind, classes, 1, 1};
+    sp.group_kinds = {kind, 'F'};
+    sp.feats       = {f, feat_t{'F', 1, 1, 1}};
+    sp.target      = astarget != 0 ? f : feat_t{'F', 1, 1, 1};
+    sp.rows        = rows;
+    sp.cols        = f.cols() + 1;
+    sp.tcols       = astarget != 0 ? classes : 1;
+    sp.samples     = sel;
+    const auto nan = std::numeric_limits<double>::quiet_NaN();
+    for (int64_t r = 0; r < rows; ++r)
+    {
+        const auto* l       = &labels[static_cast<size_t>(r * per)];
+        const auto  missing = l[0] < 0;
+        if (missing && astarget != 0)
+        {
+            throw bad_op("missing categorical target");
+        }
+        for (int64_t c = 0; c < f.cols(); ++c)
+        {
+            const auto hit = (kind == 'S') ? (l[0] == c) : (l[c] == 1);
+            if (kind == 'S' ? (l[0] >= classes) : (!missing && l[c] != 0 && l[c] != 1))
+            {
+                throw bad_op("label");
+            }
+            sp.X.push_back(missing ? nan : (hit ? 1.0 : -1.0));
+        }
+        sp.X.push_back(static_cast<double>(r)); // the scalar feature
+        if (astarget != 0)
+        {
+            for (int64_t c = 0; c < classes; ++c)
+            {
+                const auto hit = (kind == 'S') ? (l[0] == c) : (l[c] == 1);
+                sp.Y.push_back(hit ? 1.0 : -1.0);
+            }
+        }
+        else
+        {
+            sp.Y.push_back(0.5);
+        }
+    }
+    for (const auto s : sp.samples)
+    {
+        if (s < 0 || s >= sp.rows)
+        {
+            throw bad_op("sample index");
+        }
+    }
+
+    const auto  world   = world_t{sp, 1U};
+    const auto& dataset = *world.m_dataset;
+    const auto  samples = to_indices(sp.samples);
+
+    // the oracle answers the model needs: (present, hash) of every selected sample
+    out_t extra;
+    extra << static_cast<int64_t>(samples.size());
+    if (kind == 'S')
+    {
+        sclass_mem_t buffer;
+        const auto   values = dataset.select(samples, 0, buffer);
+        for (tensor_size_t i = 0; i < values.size(); ++i)
+        {
+            extra << (values(i) >= 0 ? 1 : 0);
+            extra.raw(std::to_string(::nano::hash(values(i))));
+        }
+    }
+    else
+    {
+        mclass_mem_t buffer;
+        const auto   values = dataset.select(samples, 0, buffer);
+        for (tensor_size_t i = 0; i < values.size<0>(); ++i)
+        {
+            extra << (values(i, 0) >= 0 ? 1 : 0);
+            extra.raw(std::to_string(::nano::hash(values.array(i))));
+        }
+    }
+    aug += " " + extra.str();
+
+    const auto print = [](out_t& out, const xclass_stats_t& st)
+    {
+        out << static_cast<int64_t>(st.m_class_hashes.size());
+        for (const auto h : st.m_class_hashes)
+        {
+            out.raw(std::to_string(h));
+        }
+        out.ilist(st.m_class_samples).ilist(st.m_sample_classes).flist(st.m_sample_weights);
+    };
+
+    out_t out;
+    out << "ok";
+    print(out, xclass_stats_t::make_feature_stats(dataset, samples, 0));
+    out << astarget;
+    if (astarget != 0)
+    {
+        print(out, xclass_stats_t::make_targets_stats(dataset, samples));
+    }
+    // a continuous feature (and a continuous target) must be refused
+    auto refused = 0;
+    try
+    {
+        xclass_stats_t::make_feature_stats(dataset, samples, 1);
+    }
+    catch (const std::runtime_error&)
+    {
+        ++refused;
+    }
+    if (astarget == 0)
+    {
+        try
+        {
+            xclass_stats_t::make_targets_stats(dataset, samples);
+        }
+        catch (const std::runtime_error&)
+        {
+            ++refused;
+        }
+    }
+    else
+    {
+        ++refused;
+    }
+    out << refused;
+    return out.str();
+}
 } // namespace
 
 std::string vh::execute(toks_t& toks, std::string& aug)
@@ -523,6 +769,14 @@ std::string vh::execute(toks_t& toks, std::string& aug)
     if (op == "feature")
     {
         return op_feature(toks, aug);
+    }
+    if (op == "t4")
+    {
+        return op_t4(toks, aug);
+    }
+    if (op == "xclass")
+    {
+        return op_xclass(toks, aug);
     }
     throw bad_op("unknown op " + op);
 }
